@@ -175,9 +175,9 @@ class VmTuple(TlbScheme):
         if len(values) == 0:
             return Cell.empty()
         builder = Builder()
-        value = values.pop()
-        builder.store_cell(VmTupleRef.serialize(values))
-        builder.store_ref(VmStackValue.serialize(value))
+        # work on a new VmTuple: popping from `values` would empty the caller's tuple
+        builder.store_cell(VmTupleRef.serialize(VmTuple(values.list[:-1])))
+        builder.store_ref(VmStackValue.serialize(values.list[-1]))
         return builder.end_cell()
 
     @classmethod
